@@ -181,6 +181,9 @@ pub enum Op {
     FaultQuery { w: u8, a: u8, mac: u8, k: u8, dec: u8 },
     /// `world.clone()` during which the k-th tracked `Clone::clone` panics.
     FaultClone { w: u8, k: u8 },
+    /// `target.clone_from(&world)` into a non-empty scratch target of the same shape (an unfaulted clone of `world`), during
+    /// which the k-th tracked `Clone::clone` panics; the target is dropped afterwards.
+    FaultCloneFrom { w: u8, k: u8 },
     /// Destroy (dynamic key, world level: the tuple is dropped inside gecs) during which the k-th tracked Drop panics.
     FaultDestroyDrop { w: u8, a: u8, i: u8, k: u8 },
     /// `ecs_iter_destroy!` destroying everything in archetype a, the k-th tracked Drop panics.
@@ -195,7 +198,7 @@ impl Op {
     pub fn is_fault(&self) -> bool {
         matches!(
             self,
-            Op::FaultQuery { .. } | Op::FaultClone { .. } | Op::FaultDestroyDrop { .. } | Op::FaultIterDestroyDrop { .. } | Op::DropWorld { .. } | Op::FaultCreateInto { .. }
+            Op::FaultQuery { .. } | Op::FaultClone { .. } | Op::FaultCloneFrom { .. } | Op::FaultDestroyDrop { .. } | Op::FaultIterDestroyDrop { .. } | Op::DropWorld { .. } | Op::FaultCreateInto { .. }
         )
     }
 }
@@ -617,6 +620,7 @@ impl Sys {
                 let total_tracked: usize = sc.archs.iter().map(|&a| m.order[a as usize].len() * tracked_cols(a as usize) as usize).sum();
                 for k in 1..=total_tracked {
                     out.push(Op::FaultClone { w: wu, k: k as u8 });
+                    out.push(Op::FaultCloneFrom { w: wu, k: k as u8 });
                 }
                 // Dropping a world (with or without a Drop fault) only while another world remains,
                 // or as the very last action of a history (the epilogue copes with no worlds).
@@ -841,7 +845,7 @@ impl Sys {
                 Ok(Some(w))
             }
             Op::DropWorld { k: 0, .. } if self.sc.max_faults == 0 => crate::fault::apply_fault(self, op),
-            Op::FaultQuery { .. } | Op::FaultClone { .. } | Op::FaultDestroyDrop { .. } | Op::FaultIterDestroyDrop { .. } | Op::DropWorld { .. } | Op::FaultCreateInto { .. } => {
+            Op::FaultQuery { .. } | Op::FaultClone { .. } | Op::FaultCloneFrom { .. } | Op::FaultDestroyDrop { .. } | Op::FaultIterDestroyDrop { .. } | Op::DropWorld { .. } | Op::FaultCreateInto { .. } => {
                 self.faults_used += 1;
                 crate::fault::apply_fault(self, op)
             }
